@@ -352,13 +352,13 @@ func cfgString(para bool) string {
 }
 
 func waitTx(n *node, hash []byte) {
-	deadline := time.Now().Add(60 * time.Second)
+	deadline := time.Now().Add(300 * time.Second)
 	for {
 		if _, err := n.mock.GetAPI().QueryTx(&types.ReqHash{Hash: hash}); err == nil {
 			return
 		}
 		if time.Now().After(deadline) {
-			lib.Inconclusive("fixture: transaction %x not mined within 60 s", hash)
+			lib.Inconclusive("fixture: transaction %x not mined within 300 s", hash)
 		}
 		time.Sleep(5 * time.Millisecond)
 	}
